@@ -388,6 +388,7 @@ func main() {
 		nDone += len(cases)
 	}
 
+	var reSpecs []reSpec
 	if env.Replay != "" {
 		b, err := os.ReadFile(env.Replay)
 		if err != nil {
@@ -398,6 +399,8 @@ func main() {
 				Value string `json:"value"`
 				Rest  string `json:"rest"`
 				HSeed uint64 `json:"history_seed"`
+				MSeed uint64 `json:"mutation_seed"`
+				Steps int    `json:"steps"`
 			} `json:"cases"`
 		}
 		if err := json.Unmarshal(b, &rf); err != nil {
@@ -405,6 +408,10 @@ func main() {
 		}
 		for _, rc := range rf.Cases {
 			if rc.Value == "" {
+				continue
+			}
+			if rc.MSeed != 0 {
+				reSpecs = append(reSpecs, reSpec{Value: rc.Value, HSeed: rc.HSeed, MSeed: rc.MSeed, Steps: rc.Steps})
 				continue
 			}
 			v, err := vg.ParseLine(rc.Value)
@@ -519,6 +526,9 @@ func main() {
 	}
 
 	flush(true)
+	if env.Replay == "" || len(reSpecs) > 0 {
+		totalLines += reencodeStage(env, rep, rng.Fork(), reSpecs)
+	}
 
 	g1, g2 := vg.CollidingGroups()
 	rep.Note("colliding string keys: %d groups of >=%d strings with equal hash index modulo 101 and 203; %d strings in bucket 0", g1, g2, vg.ZeroBucketStrings())
